@@ -250,7 +250,7 @@ class PFlow(BaseRoutine):
         self.exec_time = t1 - t0
 
         if not self.converged:
-            if abs(self.mis[-1] - self.mis[-2]) < self.config.tol:
+            if len(self.mis) > 1 and abs(self.mis[-1] - self.mis[-2]) < self.config.tol:
                 max_idx = np.argmax(np.abs(system.dae.xy))
                 name = system.dae.xy_name[max_idx]
                 logger.error('Mismatch is not correctable possibly due to large load-generation imbalance.')
